@@ -62,9 +62,10 @@ CLAIMED['C03'] = {
             'the verdict is that step\'s (C03_invalid_no_effect_partial, C03_access_error_no_execution, C03_syntax_error_anywhere, '
             'C03_symbol_command_no_execution; closed under the global context). For the symbol-related defect classes the per-instruction gap is closed by '
             'composition with the C08 model (Props/C03C08.v): whatever the symbol validator rejects (undefined, defined later, wrong type, duplicate, relativity via '
-            'symbols) is a VALIDATION_ERROR at the instruction it names with only validation events, no sandbox. Tie: ~660 real cases per quick run: one defective real instruction of '
+            'symbols) is a VALIDATION_ERROR at the instruction it names with only validation events, no sandbox. Tie: ~1450 real observations per quick run: one defective real instruction of '
             'every class at every phase x position in a template with marker side effects in every phase, plus defects in [act]/[conf], missing '
-            'include, and the same through the symbol command; sandbox creation counted at the resolver.',
+            'include; the same through the symbol command, (sampled) under --act and --keep, and in suite mode (the instruction stands in the suite file and is '
+            'defective for one of three cases only, by that case\'s own definitions / home files); sandbox creation counted at the resolver.',
     'note': 'PARTIAL: that each real instruction reports each class of defect in a validation step rather than in main is per-instruction Python '
             'outside the model, covered by the differential run only. trusted: Coq kernel + vm_compute; Model/Exec.v + Model/World.v hand-written; /bin/sh.',
     'technique': CORR,
@@ -75,7 +76,7 @@ CLAIMED['C04'] = {
             'os.environ (instructions get copies), creates at most one fresh sandbox iff execution gets past validation, removes it unless keep, and is '
             'in act/ right after creation (C04_cwd_restored, C04_environ_untouched, C04_sandbox_fresh_and_removed_unless_keep, C04_starts_in_act, '
             'C04_at_most_one_sandbox; closed under the global context). Tie: ~1200 stub executions (C01 fault plans x keep x chdir effects) and ~144 real '
-            'cases through MainProgram.execute (12 endings x keep x cd/env/read-only/tmp features) per quick run, observing cwd, os.environ, directories '
+            'cases through MainProgram.execute (12 endings x keep x cd/env/read-only/tmp features x command-line / source-interpreter / file-interpreter actor) per quick run, observing cwd, os.environ, directories '
             'left, reported path, layout, result/ files and contents, tmp/.',
     'note': 'PARTIAL: rmtree on read-only trees, the layout made by construct_at, the contents of result/ and "tmp/ untouched" are file-system behaviour '
             'outside the Gallina model: observed on real runs only. The checks run as root, so permission bits do not bind. An infrastructure exception '
@@ -151,7 +152,7 @@ CLAIMED['C14'] = {
             'the guard they are refuted by machine-checked witnesses = open known findings KF-C14-1, KF-C14-2): for every source tree (literal, file, program output, line '
             'transformers, filter, run, two-part concat), every mem_buff_size and every access sequence before and after freezing, every view shows the denoted text; verdicts '
             'depend only on the text; M, ( M && M ), ( M || M ) and identity-wrapped M agree; equals agrees over all 3x3 source kinds; the spool keeps the text for every '
-            'buffer size (UTF-8 byte level, round trip proved); n-ary concat and `replace` yield exactly the lines of their text; buffer size irrelevant; pre-fix spool and pre-fix concat refuted. 16 theorems closed under the global context.',
+            'buffer size (UTF-8 byte level, round trip proved); n-ary concat and `replace` yield exactly the lines of their text; buffer size irrelevant; a chain nested in a chain is the flat chain and `identity` inserted at any position of any chain changes nothing (for every source, no guard); pre-fix spool and pre-fix concat refuted. 18 theorems closed under the global context.',
     'note': 'Hand-written state-passing interpreter of 14 anchored modules; line transformers and external programs are abstract functions with an admissibility hypothesis '
             '(instances proved for identity, filter, ASCII upper-case, cat, tr, tail). Tie: ~3300 (quick) / 40000 (thorough) differential cases incl. the deviating inputs, '
             'through the real parsers with chosen mem_buff_size, incl. texts of 9-40 KiB, U+FEFF/NUL, program sources whose output differs per run ("one text after freeze" is judged '
@@ -184,8 +185,8 @@ CLAIMED['C19'] = {
 CLAIMED['C20'] = {
     'text': 'proof: general theorems over the model (one name/constructor list => help list = accepted names under name-faithfulness; value_lookup; the help argument parser '
             'reaches every documented entry; HTML anchors injective) + finite theorems decided by the Coq kernel over an inventory regenerated from the live program on every '
-            'run (accepted = documented per phase, suite section and entity type; every enumerated help request exits 0 with output; every internal href has exactly one target). '
-            '16 theorems closed under the global context. Honest label: the finite theorems are kernel-decided checks over regenerated data; their bound is the inventory.',
+            'run (accepted = documented per phase, suite section and entity type; every enumerated help request exits 0 with output; every internal href has exactly one target; what is accepted by `exactly CASE` is accepted in each of the 7 ways of running a case, `exactly suite` included). '
+            '17 theorems closed under the global context. Honest label: the finite theorems are kernel-decided checks over regenerated data; their bound is the inventory.',
     'note': 'Trusted: the inventory generator in harness/c20.py (drives the real program in process; "not accepted" = answered exactly like an invented name and, for '
             'instructions, UnknownInstructionException; rendered-table and HTML attribute extraction each cross-checked by a second path). Modelled, not verified: '
             'instruction_setup.py, the help contents structure, value_lookup.py, argument_parsing.py, cross_ref_target_renderer.py. Concepts and syntax elements have no parser: '
